@@ -6,6 +6,7 @@ import (
 	"math"
 	"os"
 	"path/filepath"
+	"strings"
 	"testing"
 
 	"pgregory.net/rapid"
@@ -503,6 +504,48 @@ func TestLiteralReevaluation(t *testing.T) {
 		}
 	}
 	evid.Exhaustive("collection literal evaluated repeatedly x written element x loop form x {=, +=}", n)
+}
+
+// TestLargeSubjects: slices and index reads / writes on lists and strings of 31 .. 1000 elements (and strings with
+// characters of 1-4 bytes), with bounds at and around both ends, the middle and the length.
+func TestLargeSubjects(t *testing.T) {
+	n := 0
+	for li, ln := range []int{31, 32, 33, 63, 64, 65, 127, 128, 129, 255, 256, 257, 1000} {
+		if li%evid.NShards() != evid.Shard() {
+			continue
+		}
+		lst := make([]any, ln)
+		var sb strings.Builder
+		for i := range lst {
+			lst[i] = int64(i)
+			sb.WriteString([]string{"a", "é", "注", "\U0001F600", "b"}[i%5])
+		}
+		L := int64(ln)
+		bs := []bound{{omit: true}, {v: 0}, {v: 1}, {v: -1}, {v: L - 1}, {v: L}, {v: L + 1}, {v: -L}, {v: -L - 1}, {v: -L + 1}, {v: L / 2}, {v: -L / 2}}
+		steps := []bound{{omit: true}, {v: 1}, {v: 2}, {v: -1}, {v: -2}, {v: L - 1}, {v: L}, {v: -L}, {v: 7}}
+		for _, subj := range []any{lst, sb.String()[:len(sb.String())], strings.Repeat("ab", ln/2)} {
+			for _, lo := range bs {
+				for _, hi := range bs {
+					for si, st := range steps {
+						if (si != 0 && si != 1) && ((lo.v+hi.v)%3 != 0) {
+							continue // a third of the bound pairs for the unusual steps
+						}
+						c := sliceCase(subj, lo, hi, st, 0)
+						judge(t, "large", c, fmt.Sprintf("large/%d/%T/%v/%v/%v", ln, subj, lo, hi, st), true, "large-subject/slice")
+						n++
+					}
+				}
+			}
+		}
+		// index reads and writes at the same offsets
+		for _, ix := range bs[1:] {
+			prog := []*gen.Node{gen.NSet("x", sgen.Lit(lst)), gen.NCall("probe", gen.NStr("r"), gen.NIndex(id("x"), sgen.Lit(ix.v))),
+				gen.NAssign("=", []*gen.Node{gen.NIndex(id("x"), sgen.Lit(ix.v))}, []*gen.Node{gen.NStr("w")}), gen.NCall("probe", gen.NStr("len"), gen.NCall("len", id("x")), gen.NIndex(id("x"), gen.NInt(0)), gen.NIndex(id("x"), gen.NInt(-1)))}
+			judge(t, "large", sem.NewCase(gen.FixAll(prog)), fmt.Sprintf("large-index/%d/%v", ln, ix), true, "large-subject/index")
+			n++
+		}
+	}
+	evid.Exhaustive("subjects of 31..1000 elements x bounds around both ends x steps; index read/write", n)
 }
 
 func TestReplays(t *testing.T) {
